@@ -46,6 +46,26 @@ func safeFloatToDec(f float64) decimal.Decimal {
 	return decimal.NewFromFloat(f)
 }
 
+// narrowInt32 returns the result of an int32 operation: an int32 if the exact
+// value fits, otherwise the int64 (MongoDB promotes an overflowing int to long).
+func narrowInt32(v int64) interface{} {
+	if v < math.MinInt32 || v > math.MaxInt32 {
+		return v
+	}
+	return int32(v)
+}
+
+// addInt64 adds two int64 values. A sum that leaves the int64 range yields
+// Missing, which makes the callers reject the operation (as MongoDB does)
+// instead of storing a wrapped number.
+func addInt64(a, b int64) interface{} {
+	c := a + b
+	if (b > 0 && c < a) || (b < 0 && c > a) {
+		return Missing
+	}
+	return c
+}
+
 // Add will add together two numerical values. It accepts and returns int32,
 // int64, float64 and decimal128.
 func Add(num, inc interface{}) interface{} {
@@ -53,9 +73,9 @@ func Add(num, inc interface{}) interface{} {
 	case int32:
 		switch inc := inc.(type) {
 		case int32:
-			return num + inc
+			return narrowInt32(int64(num) + int64(inc))
 		case int64:
-			return int64(num) + inc
+			return addInt64(int64(num), inc)
 		case float64:
 			return float64(num) + inc
 		case primitive.Decimal128:
@@ -66,9 +86,9 @@ func Add(num, inc interface{}) interface{} {
 	case int64:
 		switch inc := inc.(type) {
 		case int32:
-			return num + int64(inc)
+			return addInt64(num, int64(inc))
 		case int64:
-			return num + inc
+			return addInt64(num, inc)
 		case float64:
 			return float64(num) + inc
 		case primitive.Decimal128:
